@@ -442,6 +442,11 @@ pub enum Op {
     /// the entropy draws of the NEXT build are served from this recording (hex per draw): how a violation seen
     /// in the observe arm (real OS entropy) is turned into an exactly replayable run
     ScriptEntropy { draws: Vec<String> },
+    /// observe arm of C10, concurrent callers: `threads` OS threads at once, each with its own builder of
+    /// (proto, layer), issue `builds_each` tokens under one key and then draw `draws_each` random keys.  The
+    /// interleaving is NOT decided by the simulator (the library has no synchronisation point to intercept):
+    /// this only notices mutable state shared between caller threads; its verdict is statistical.
+    ConcurrentIssuers { proto: Proto, layer: Layer, key: usize, threads: u32, builds_each: u32, draws_each: u32 },
     /// observe arm of C10: `n` direct draws from the library's random-key constructor (the one every local
     /// builder takes its nonce material from), real OS entropy passing through the hook unmodified
     DrawKeys { n: u32 },
@@ -599,6 +604,7 @@ pub enum Obs {
     NewVerifier { ok: bool, notes: Vec<String> },
     Deliver { main: DeliverObs, twin: Option<DeliverObs>, control: Option<DeliverObs> },
     ForeignIssue { issued: bool },
+    Concurrent { builds_ok: u32, builds_failed: u32, distinct_nonces: u32, distinct_tokens: u32, draws_ok: u32, distinct_draws: u32 },
     Scripted,
     RecoverKey { public_hex: Option<String> },
     Draws { ok: u32, failed: u32, distinct: u32, constant_positions: u32, worst_bit_dev_centisigma: u32 },
